@@ -152,13 +152,15 @@ def judge(ff, g, before, after, residues):
                 continue
             # some link interaction of this section with the same parameters and atom names, on allowed residue names
             ok = any(s == sec and lr['params'] == r['params'] and [n for _, n in lr['atoms']] == [name_of[a] for a in r['atoms']]
-                     and all(rname_of[a] in l['resnames'] for a in r['atoms']) for s, lr, l in link_rows)
+                     and all(rname_of[a] in (l['resnames'] or list(rname_of.values())) for a in r['atoms']) for s, lr, l in link_rows)
             if not ok and key_of(sec, r) not in bkeys:
                 bad.append(f"{sec} on atoms {r['atoms']} ({[name_of[a] for a in r['atoms']]}) with {r['params']} is defined by no link of the force field")
     # completeness / chain end for plain next-residue bonds on a path
     if g['shape'] == 'path':
         by = {b['name']: b for b in ff['blocks']}
         for l in ff['links']:
+            if not l['resnames']:
+                continue        # atoms with their own residue names: judged by spec_table
             for r in l['inters'].get('bonds', []):
                 (p1, n1), (p2, n2) = r['atoms']
                 if (p1, p2) != ('', '+'):
@@ -305,13 +307,18 @@ def run(ctx):
     rng = ctx.rng
     cases = [(c['ff'], c['graph']) for _, c in core.corpus_cases('C02')]
     for _ in range(ctx.n(160, 1600)):
-        ff = ffgen.gen_ff(rng, uniform_nrexcl=1, nlinks=rng.randint(0, 5))
-        g = ffgen.gen_resgraph(rng, ff)
+        if rng.random() < 0.1:
+            ff, names = ffgen.gen_arrangement_ff(rng)
+            g = ffgen.gen_arrangement_graph(rng, names)
+            ctx.feature('per_atom_resname_links')
+        else:
+            ff = ffgen.gen_ff(rng, uniform_nrexcl=1, nlinks=rng.randint(0, 5))
+            g = ffgen.gen_resgraph(rng, ff)
         if rng.random() < 0.4:
             g = ffgen.permute_graph(rng, g)
         if rng.random() < 0.3:
             # edge labels: labelled and unlabelled links of the same shape side by side, labelled residue edges
-            labelled = [ffgen.label_link(rng, l) for l in ff['links'] if rng.random() < 0.6]
+            labelled = [ffgen.label_link(rng, l) for l in ff['links'] if l['resnames'] and rng.random() < 0.6]
             ff = dict(ff, links=ff['links'] + [l for l in labelled if l.get('edge_labels')])
             if rng.random() < 0.5:
                 rng.shuffle(ff['links'])
